@@ -337,7 +337,7 @@ CLAIMED['C16'] = dict(
                   "keys, the two linear scans, the wildcard regex) and of index, under a hand-written model of the "
                   "apply_meta wrappers; extracted-model/implementation differential run; a linear-scan oracle on "
                   "the implementation",
-        text="Machine-checked (Coq 8.16, 32 theorems in coq/Props/C16.v, all closed under the global context), "
+        text="Machine-checked (Coq 8.16, 34 theorems in coq/Props/C16.v, all closed under the global context), "
              "for vectors/tables of ANY size and all scalar cells. FULL: C16_bisect_loop (CPython's bisect_right "
              "loop returns the partition point of any defined monotone test; fuel hi-lo+1 suffices), C16_bisect "
              "(on cells whose ExcelCmp keys are sorted by the model's <= between lo and hi: a[k] <= v before the "
@@ -359,7 +359,9 @@ CLAIMED['C16'] = dict(
              "and no other regex metacharacter, no line feed in the text cells: the first position whose cell is "
              "text, not an error code, and matches the lower-cased pattern, else #N/A; '~' is an ordinary "
              "character = known finding tilde); C16_match_position (every match type: #N/A or a position inside "
-             "the vector); C16_lookup_is_index_match_v/_h (VLOOKUP/HLOOKUP = the error MATCH gives, else "
+             "the vector); C16_match_range_row / _column (the regenerated f_match searches a single row as it is, "
+             "any other range through its first column: the match_ theorems are theorems on MATCH); "
+             "C16_lookup_is_index_match_v/_h (VLOOKUP/HLOOKUP = the error MATCH gives, else "
              "INDEX(t, MATCH(...), k), every rectangular table); C16_lookup_array (array-form LOOKUP of the "
              "regenerated f_lookup = INDEX in the last column at MATCH(v, first column, 1) when width <= height "
              "- square tables included - else INDEX in the last row at MATCH(v, first row, 1)), "
@@ -374,10 +376,11 @@ CLAIMED['C16'] = dict(
              "is >= v); no clause of the property is left partial. REFUTED in the faithful "
              "model (advisory files, built as extra targets): Refuted/C16_blank_cell.v (match types 0/-1 find a "
              "blank cell as the number 0, type 1 does not), Refuted/C16_wildcard_tilde.v ('a~*' does not escape "
-             "the asterisk). CORRESPONDENCE-ONLY (no theorem): LOOKUP with a 2-D or non-list result range "
+             "the asterisk), Refuted/C16_lookup_short.v (a result vector shorter than the search vector: IndexError "
+             "where INDEX gives #REF!). CORRESPONDENCE-ONLY (no theorem): LOOKUP with a 2-D or non-list result range "
              "(#N/A), the apply_meta wrappers (CSE lookup value, number coercion of the index, error "
-             "propagation), INDEX with a 0 index (whole row/column), match_type coercion, MATCH's own "
-             "row/column unpacking (f_match). Outside the model (Unmodelled, oracle "
+             "propagation), INDEX with a 0 index (whole row/column), match_type coercion. "
+             "Outside the model (Unmodelled, oracle "
              "only): wildcard patterns containing other regex metacharacters. Every quick run compares the "
              "extracted model with the real functions called through apply_meta on ~80k distinct calls (MATCH "
              "over all vectors up to length 2 and sampled up to length 8 over a 9/18-value mixed pool, sorted "
